@@ -612,4 +612,56 @@ theorem effArgs_admissible (a : CallArgs ℝ) (hr : ∀ r, a.rtol = some r → 0
 /-- the default `check` is `True`: a caller who leaves it out gets the validation -/
 theorem effCheck_default (rt at_ : Option ℝ) : (⟨none, rt, at_⟩ : CallArgs ℝ).effCheck = true := rfl
 
+
+/-! ## perturbation of products, dot products and determinants (pass 7) -/
+
+theorem mul_near (u v u0 v0 δ : ℝ) (hδ : 0 ≤ δ) (hu : |u - u0| ≤ δ) (hv : |v - v0| ≤ δ) (hu0 : |u0| ≤ 1) (hv0 : |v0| ≤ 1) :
+    |u * v - u0 * v0| ≤ 2 * δ + δ ^ 2 := by
+  have e : u * v - u0 * v0 = (u - u0) * (v - v0) + u0 * (v - v0) + (u - u0) * v0 := by ring
+  rw [e]
+  calc |(u - u0) * (v - v0) + u0 * (v - v0) + (u - u0) * v0|
+      ≤ |(u - u0) * (v - v0)| + |u0 * (v - v0)| + |(u - u0) * v0| := abs_add_three _ _ _
+    _ = |u - u0| * |v - v0| + |u0| * |v - v0| + |u - u0| * |v0| := by rw [abs_mul, abs_mul, abs_mul]
+    _ ≤ δ * δ + 1 * δ + δ * 1 := by
+        have h1 := mul_le_mul hu hv (abs_nonneg _) hδ
+        have h2 := mul_le_mul hu0 hv (abs_nonneg _) (by norm_num : (0:ℝ) ≤ 1)
+        have h3 := mul_le_mul hu hv0 (abs_nonneg _) hδ
+        linarith
+    _ = 2 * δ + δ ^ 2 := by ring
+
+theorem mul3_near (u v w u0 v0 w0 δ : ℝ) (hδ : 0 ≤ δ) (hu : |u - u0| ≤ δ) (hv : |v - v0| ≤ δ) (hw : |w - w0| ≤ δ)
+    (hu0 : |u0| ≤ 1) (hv0 : |v0| ≤ 1) (hw0 : |w0| ≤ 1) :
+    |u * v * w - u0 * v0 * w0| ≤ 3 * δ + 3 * δ ^ 2 + δ ^ 3 := by
+  have huv := mul_near u v u0 v0 δ hδ hu hv hu0 hv0
+  have huv0 : |u0 * v0| ≤ 1 := by rw [abs_mul]; exact mul_le_one₀ hu0 (abs_nonneg _) hv0
+  have e : u * v * w - u0 * v0 * w0 = (u * v - u0 * v0) * (w - w0) + (u0 * v0) * (w - w0) + (u * v - u0 * v0) * w0 := by ring
+  rw [e]
+  have hB : 0 ≤ 2 * δ + δ ^ 2 := by positivity
+  calc |(u * v - u0 * v0) * (w - w0) + u0 * v0 * (w - w0) + (u * v - u0 * v0) * w0|
+      ≤ |(u * v - u0 * v0) * (w - w0)| + |u0 * v0 * (w - w0)| + |(u * v - u0 * v0) * w0| := abs_add_three _ _ _
+    _ = |u * v - u0 * v0| * |w - w0| + |u0 * v0| * |w - w0| + |u * v - u0 * v0| * |w0| := by
+        rw [abs_mul (u * v - u0 * v0) (w - w0), abs_mul (u0 * v0) (w - w0), abs_mul (u * v - u0 * v0) w0]
+    _ ≤ (2 * δ + δ ^ 2) * δ + 1 * δ + (2 * δ + δ ^ 2) * 1 := by
+        have h1 := mul_le_mul huv hw (abs_nonneg _) hB
+        have h2 := mul_le_mul huv0 hw (abs_nonneg _) (by norm_num : (0:ℝ) ≤ 1)
+        have h3 := mul_le_mul huv hw0 (abs_nonneg _) hB
+        linarith
+    _ = 3 * δ + 3 * δ ^ 2 + δ ^ 3 := by ring
+
+/-- entries of a matrix with orthonormal rows are bounded by 1 -/
+theorem row_entries_le_one (r : Vec3 ℝ) (h : r.x * r.x + r.y * r.y + r.z * r.z = 1) : |r.x| ≤ 1 ∧ |r.y| ≤ 1 ∧ |r.z| ≤ 1 := by
+  refine ⟨?_, ?_, ?_⟩ <;> (rw [abs_le]; constructor <;> nlinarith [mul_self_nonneg r.x, mul_self_nonneg r.y, mul_self_nonneg r.z])
+
+theorem dot_near (a b a0 b0 : Vec3 ℝ) (δ : ℝ) (hδ : 0 ≤ δ) (ha : Vec3.Near δ a a0) (hb : Vec3.Near δ b b0)
+    (ha0 : |a0.x| ≤ 1 ∧ |a0.y| ≤ 1 ∧ |a0.z| ≤ 1) (hb0 : |b0.x| ≤ 1 ∧ |b0.y| ≤ 1 ∧ |b0.z| ≤ 1) :
+    |a.dot b - a0.dot b0| ≤ 6 * δ + 3 * δ ^ 2 := by
+  obtain ⟨a1, a2, a3⟩ := ha
+  obtain ⟨b1, b2, b3⟩ := hb
+  have hx := mul_near a.x b.x a0.x b0.x δ hδ a1 b1 ha0.1 hb0.1
+  have hy := mul_near a.y b.y a0.y b0.y δ hδ a2 b2 ha0.2.1 hb0.2.1
+  have hz := mul_near a.z b.z a0.z b0.z δ hδ a3 b3 ha0.2.2 hb0.2.2
+  simp only [Vec3.dot]
+  rw [abs_le] at hx hy hz ⊢
+  constructor <;> linarith [hx.1, hx.2, hy.1, hy.2, hz.1, hz.2]
+
 end PP
